@@ -1028,6 +1028,21 @@ func callBuiltin(caller *frame, callpos token.Pos, fn *ssa.Builtin, args []value
 		}
 		return nil
 
+	case "clear": // clear(map) / clear(slice)
+		switch m := args[0].(type) {
+		case *hashmap:
+			for _, e := range m.live() {
+				m.delete(e.key)
+			}
+		case []value:
+			for i := range m {
+				m[i] = zero(fn.Type().(*types.Signature).Params().At(0).Type().Underlying().(*types.Slice).Elem())
+			}
+		default:
+			panic(fmt.Sprintf("clear of %T", m))
+		}
+		return nil
+
 	case "print", "println": // print(any, ...)
 		ln := fn.Name() == "println"
 		var buf bytes.Buffer
